@@ -29,7 +29,7 @@ SeqSet(q) == {q[i] : i \in DOMAIN q}
 
 NoW == [st |-> "None", cur |-> 0, old |-> 0, reg |-> <<>>, dropped |-> <<>>, kind |-> <<>>]
 Empty == [scn |-> "none", nscn |-> 0, nout |-> 0, live |-> FALSE, out |-> FALSE,
-          w |-> NoW, env |-> [preg |-> FALSE, pend |-> 0, fresh |-> 1], oreg |-> <<>>,
+          w |-> NoW, env |-> [preg |-> FALSE, pend |-> 0, upend |-> 0, fresh |-> 1], oreg |-> <<>>,
           open |-> FALSE, cop |-> "none", obs |-> <<>>, bviol |-> {}, wheelok |-> TRUE, lastep |-> {},
           viol |-> {}]
 
@@ -45,7 +45,7 @@ Fresh(sh0, ev) ==
              cur |-> IF ev.init = "from" THEN 1 ELSE 0, old |-> 0,
              reg |-> [c \in C |-> FALSE], dropped |-> [c \in C |-> FALSE], kind |-> ev.kinds]
   IN [Empty EXCEPT !.scn = ev.id, !.nscn = sh0.nscn + 1, !.nout = sh0.nout, !.live = TRUE,
-                   !.w = w0, !.env = [preg |-> FALSE, pend |-> 0, fresh |-> IF ev.init = "from" THEN 2 ELSE 1],
+                   !.w = w0, !.env = [preg |-> FALSE, pend |-> 0, upend |-> 0, fresh |-> IF ev.init = "from" THEN 2 ELSE 1],
                    !.oreg = [c \in C |-> FALSE], !.viol = sh0.viol]
 
 \* ---------------------------------------------------------------------------- calls received by a child
@@ -135,7 +135,7 @@ Step(sh0, ev, ln) ==
 TInit == /\ l = 1 /\ sh = Empty
          \* the variables of the state machine of Transient.tla are not used here
          /\ st = "None" /\ cur = 0 /\ old = 0 /\ reg = <<>> /\ dropped = <<>> /\ kind = <<>>
-         /\ preg = FALSE /\ pend = 0 /\ fresh = 1 /\ n = 0 /\ last = NoLast
+         /\ preg = FALSE /\ pend = 0 /\ upend = 0 /\ fresh = 1 /\ n = 0 /\ last = NoLast
 TNext == /\ l <= Len(Rec)
          /\ sh' = Step(sh, Rec[l], l)
          /\ l' = l + 1
